@@ -37,6 +37,17 @@ CLAIMED = {
          "(after the repairs D1, D2, D9, D11 listed in known_findings.txt); harness. The ancilla-name clause is carried by C02/C03, "
          "the reduced-form label clause by C01.",
     technique="Coq proof (invariant by induction over edit histories) + model/implementation correspondence", ref="§5 C14"),
+ "C13": dict(
+    text="Coq theorems C13_step / C13_inv: for a machine with three live collections and all listed operations (construction, "
+         "append/add_state, insert, remove, pop, extend/+= with collections and lists, +, *, slicing get/set/del with Python's "
+         "index and slice normalisation, item set/del, clear, sort, copy, filter, filter_states, apply_function, convert_states, "
+         "to_boolean, to_spin), after every finite operation sequence every collection has best = None iff empty and otherwise "
+         "best is an element with the smallest value; C13_sort (sorted + permutation), C13_convert (value-preserving, mutually "
+         "inverse). Tied to /repo by comparing contents, best and exception kind after every operation, plus an implementation-side "
+         "oracle (identity membership and minimality of best, plain-list mirror for contents and exceptions).",
+    note="Trusted: Coq kernel + vm_compute; no axioms; hand-written model of sim/_anneal_results.py after repairs D3/D4; harness. "
+         "NaN values are excluded; `*=` and reverse() are not in the property's list and not modelled.",
+    technique="Coq proof (invariant by induction over operation sequences) + model/implementation correspondence", ref="§5 C13"),
 }
 NA_REASON = "check not built yet in this round; see DESIGN.md §8 (order of work)"
 
